@@ -45,6 +45,16 @@ class Fiat(acting.Actor):
                                                  count=self._act.count)
         return parms
 
+    def control(self, tasker, control):
+        """Send control to slave tasker and return its status.
+           A slave whose generator already exited, because an exception or
+           keyboard interrupt went through it, stays aborted
+        """
+        try:
+            return tasker.runner.send(control)
+        except StopIteration:  # generator already exited
+            return tasker.status
+
 class FiatReady(Fiat):
     """FiatReady Fiat
 
@@ -57,7 +67,7 @@ class FiatReady(Fiat):
         """ready control for explicit slave tasker"""
 
         console.profuse("Ready {0}\n".format(tasker.name))
-        status = tasker.runner.send(READY)
+        status = self.control(tasker, READY)
         return (status == READIED)
 
 class FiatStart(Fiat):
@@ -72,7 +82,7 @@ class FiatStart(Fiat):
         """start control for explicit slave tasker"""
 
         console.profuse("Start {0}\n".format(tasker.name))
-        status = tasker.runner.send(START)
+        status = self.control(tasker, START)
         return (status == STARTED)
 
 class FiatStop(Fiat):
@@ -87,7 +97,7 @@ class FiatStop(Fiat):
         """stop control for explicit slave framer"""
 
         console.profuse("Stope {0}\n".format(tasker.name))
-        status = tasker.runner.send(STOP)
+        status = self.control(tasker, STOP)
         return (status == STOPPED)
 
 class FiatRun(Fiat):
@@ -102,7 +112,7 @@ class FiatRun(Fiat):
         """run control for explicit slave tasker"""
 
         console.profuse("Run {0}\n".format(tasker.name))
-        status = tasker.runner.send(RUN)
+        status = self.control(tasker, RUN)
         return (status == RUNNING)
 
 class FiatAbort(Fiat):
@@ -117,5 +127,5 @@ class FiatAbort(Fiat):
         """abort control for explicit slave tasker"""
 
         console.profuse("Abort {0}\n".format(tasker.name))
-        status = tasker.runner.send(ABORT)
+        status = self.control(tasker, ABORT)
         return (status == ABORTED)
